@@ -486,7 +486,7 @@ def execute(cases_, tier, seed):
         tier, len(schemas(tier)), 1 if tier == "quick" else 2, 3 if tier == "quick" else 4, len(SPEC_TOKENS))
     res.assumptions = ["items are compared as syn-parsed token text; doc attributes included; whitespace and raw-string spelling normalised",
                        "macro expansion by rustc 1.80.1 -Zunpretty=expanded (RUSTC_BOOTSTRAP=1); derives expand identically on both sides"]
-    if not replaying and (n_cli < 10 or n_mac < 10):
+    if not res.violations and (not replaying and (n_cli < 10 or n_mac < 10)):   # a subject that breaks everything is reported through its violations, not as vacuity
         raise MachineryError("vacuity guard: cli=%d macro=%d" % (n_cli, n_mac))
     return res
 
